@@ -728,3 +728,134 @@ Proof.
   split; [intros H; inversion H as [|? ? _ H2]; inversion H2 as [|? ? H3 _]; discriminate H3|].
   repeat split; vm_compute; reflexivity.
 Qed.
+
+(* ==================================================================================================
+   (e) THE CONSTANT FOLDER between Check and execution (Proofs/TypeSafetyWeakProofs.v,
+   Proofs/TypeSafetyFoldProofs.v).  The plans evaluate the trees ExpressionOptimizer.Optimize
+   returns ([fold], Model/Fold.v); the theorems above speak about the checked trees.
+
+   Folding keeps every TYPE fact Check establishes, the static type included, but NOT the
+   checker's syntactic test "a literal divisor is not zero": `int(value) / (2 - 2) > 1` is
+   accepted and folds to `int(value) / 0 > 1`, which Check would reject ([fold_breaks_literal_
+   divisor_test] below).  The node conditions used here are therefore the weak ones:
+     wtt e        the operator tests of Check at every node except that test
+     node_okt e   = wtt && core2 && params_static && counts_ok;  node_oktv = node_okt && in_kinds
+   (node_ok -> node_okt: weak_node_conditions_from_checker), and both evaluator inductions were
+   re-run under them (type_safety_needs_no_literal_divisor_test).  A zero divisor is the
+   data-dependent failure "division by zero" whether it is written as a literal or computed.
+   ================================================================================================== *)
+From KV Require Import Model.Fold Proofs.TypeSafetyWeakProofs Proofs.TypeSafetyFoldProofs.
+
+Theorem weak_node_conditions_from_checker :
+  forall (fo : fops) (e : expr),
+  (node_ok fo e = true -> node_okt fo e = true) /\ (node_okv fo e = true -> node_oktv fo e = true).
+Proof. exact (fun fo e => conj (node_ok_okt fo e) (node_okv_oktv fo e)). Qed.
+Print Assumptions weak_node_conditions_from_checker.
+
+(* the two evaluators on ANY tree that satisfies the weak node conditions (the tree itself and
+   every definition carried by a reference): a value / a full column of the static type, or a
+   data-dependent failure of the tree; never an operand-type error, never a panic *)
+Theorem type_safety_needs_no_literal_divisor_test :
+  forall (fo : fops) (re : bytes -> bytes -> res bool),
+  (forall p t, match re p t with Err x => x = EOther | Panic => False | _ => True end) ->
+  forall e : expr,
+  (node_okt fo e = true -> defs_ok (node_okt fo) e = true -> forall k v, dyn_ok2 fo re k v e) /\
+  (node_oktv fo e = true -> defs_ok (node_oktv fo) e = true -> forall ch, dyn_ok_vec fo re ch e).
+Proof.
+  exact (fun fo re re_ok e =>
+           conj (fun Hn Hd k v => eval_safe2_weak fo re re_ok k v e Hn Hd)
+                (fun Hn Hd ch => eval_batch_safe_weak fo re re_ok e ch Hn Hd)).
+Qed.
+Print Assumptions type_safety_needs_no_literal_divisor_test.
+
+(* fold_keeps_type_safety, row mode.  For every float interface, oracle (the folder evaluates
+   constant sub-trees with the same oracle), rendering fmt_v of folded float literals (no premise
+   on it: type safety does not need the literal to read back as the same float), every tree:
+   if the tree satisfies the node conditions, so does the tree Optimize returns, with the SAME
+   static type, and evaluating it on any pair yields a value of that type or a data-dependent
+   failure of the folded tree (sites2 of the FOLDED tree: a divisor folded to a literal reports
+   the offset of the literal, see the example) -- never an operand-type error, never a panic. *)
+Theorem fold_keeps_type_safety :
+  forall (fo : fops) (re : bytes -> bytes -> res bool),
+  (forall p t, match re p t with Err x => x = EOther | Panic => False | _ => True end) ->
+  forall (fmt_v : F fo -> string) (e : expr),
+  node_okt fo e = true -> defs_ok (node_okt fo) e = true ->
+  rtype (fold fo re fmt_v e) = rtype e /\
+  node_okt fo (fold fo re fmt_v e) = true /\ defs_ok (node_okt fo) (fold fo re fmt_v e) = true /\
+  forall k v, dyn_ok2 fo re k v (fold fo re fmt_v e).
+Proof. exact fold_safe_row. Qed.
+Print Assumptions fold_keeps_type_safety.
+
+(* ... batch mode, any chunk: a full column of values of the static type of the checked tree *)
+Theorem fold_keeps_type_safety_batch :
+  forall (fo : fops) (re : bytes -> bytes -> res bool),
+  (forall p t, match re p t with Err x => x = EOther | Panic => False | _ => True end) ->
+  forall (fmt_v : F fo -> string) (e : expr),
+  node_oktv fo e = true -> defs_ok (node_oktv fo) e = true ->
+  rtype (fold fo re fmt_v e) = rtype e /\
+  node_oktv fo (fold fo re fmt_v e) = true /\ defs_ok (node_oktv fo) (fold fo re fmt_v e) = true /\
+  forall ch, dyn_ok_vec fo re ch (fold fo re fmt_v e).
+Proof. exact fold_safe_vec. Qed.
+Print Assumptions fold_keeps_type_safety_batch.
+
+(* no_dynamic_type_error_functions_partial / _batch_partial restated for the tree the plan
+   evaluates: same premises, the conclusion for fold of the checked tree.  _partial: as there
+   (params_static, core2, in_kinds for batch mode, defs_ok are premises). *)
+Theorem no_dynamic_type_error_folded_partial :
+  forall (fo : fops) (re : bytes -> bytes -> res bool),
+  (forall p t, match re p t with Err x => x = EOther | Panic => False | _ => True end) ->
+  forall (fmt_v : F fo -> string) (ctx : cctx) (e e1 : expr) (a : bool),
+  check fo true ctx e = Ok e1 ->
+  check_calls a (rewrite_name (c_names ctx) e1) = Ok tt ->
+  core2 (rewrite_name (c_names ctx) e1) = true ->
+  params_static (rewrite_name (c_names ctx) e1) = true ->
+  defs_ok (node_ok fo) (rewrite_name (c_names ctx) e1) = true ->
+  rtype (fold fo re fmt_v (rewrite_name (c_names ctx) e1)) = rtype (rewrite_name (c_names ctx) e1) /\
+  forall k v, dyn_ok2 fo re k v (fold fo re fmt_v (rewrite_name (c_names ctx) e1)).
+Proof. exact checked_fold_safe2. Qed.
+Print Assumptions no_dynamic_type_error_folded_partial.
+
+Theorem no_dynamic_type_error_folded_batch_partial :
+  forall (fo : fops) (re : bytes -> bytes -> res bool),
+  (forall p t, match re p t with Err x => x = EOther | Panic => False | _ => True end) ->
+  forall (fmt_v : F fo -> string) (ctx : cctx) (e e1 : expr) (a : bool),
+  check fo true ctx e = Ok e1 ->
+  check_calls a (rewrite_name (c_names ctx) e1) = Ok tt ->
+  core2 (rewrite_name (c_names ctx) e1) = true ->
+  params_static (rewrite_name (c_names ctx) e1) = true ->
+  in_kinds (rewrite_name (c_names ctx) e1) = true ->
+  defs_ok (node_okv fo) (rewrite_name (c_names ctx) e1) = true ->
+  rtype (fold fo re fmt_v (rewrite_name (c_names ctx) e1)) = rtype (rewrite_name (c_names ctx) e1) /\
+  forall ch, dyn_ok_vec fo re ch (fold fo re fmt_v (rewrite_name (c_names ctx) e1)).
+Proof. exact checked_fold_safe_vec. Qed.
+Print Assumptions no_dynamic_type_error_folded_batch_partial.
+
+(* non-vacuity, and why the weak conditions are needed:
+   where int(value) / (2 - 2) > 1 | key + ('a' + 'b') = 'kab'
+   is accepted and satisfies every premise; Optimize returns
+   int(value) / 0 > 1 | key + 'ab' = 'kab' (constant operands folded, the text chain
+   re-associated); the folded tree FAILS the checker's operator tests (wt: literal zero divisor)
+   and satisfies the weak ones; on the pair (k, 7) both modes end in the data-dependent failure
+   "division by zero", reported at the folded literal (offset 20; the unfolded tree reports 22). *)
+Definition fold_ex : expr :=
+  EBin 27 OOr
+    (EBin 23 OGt (EBin 17 ODiv (ECall 6 (EName 6 "int") [EField 10 ValueKW])
+                               (EBin 22 OSub (ENum 20 "2") (ENum 24 "2"))) (ENum 30 "1"))
+    (EBin 52 OEq (EBin 38 OAdd (EBin 36 OAdd (EField 34 KeyKW) (EStr 41 "a")) (EStr 47 "b")) (EStr 54 "kab")).
+Definition fold_ex_fmt : F no_floats -> string := fun _ => "".
+
+Example fold_breaks_literal_divisor_test :
+  check no_floats true (Cctx [] false false) fold_ex = Ok fold_ex /\
+  check_calls false fold_ex = Ok tt /\
+  node_okv no_floats fold_ex = true /\ defs_ok (node_okv no_floats) fold_ex = true /\
+  fold no_floats t1_re fold_ex_fmt fold_ex =
+    EBin 27 OOr
+      (EBin 23 OGt (EBin 17 ODiv (ECall 6 (EName 6 "int") [EField 10 ValueKW]) (ENum 20 "0")) (ENum 30 "1"))
+      (EBin 52 OEq (EBin 38 OAdd (EField 34 KeyKW) (EStr 41 "ab")) (EStr 54 "kab")) /\
+  TypeSafetyProofs.wt no_floats (fold no_floats t1_re fold_ex_fmt fold_ex) = false /\
+  node_oktv no_floats (fold no_floats t1_re fold_ex_fmt fold_ex) = true /\
+  eval no_floats t1_re "k" "7" (fold no_floats t1_re fold_ex_fmt fold_ex) = Err (EExec 20) /\
+  eval_batch no_floats t1_re true (fold no_floats t1_re fold_ex_fmt fold_ex) [("k", "7")] = Err (EExec 20) /\
+  eval no_floats t1_re "k" "7" fold_ex = Err (EExec 22) /\
+  sites2 (fold no_floats t1_re fold_ex_fmt fold_ex) = [EExec 20].
+Proof. repeat split; vm_compute; reflexivity. Qed.
